@@ -225,6 +225,13 @@ def run(ctx, widen=False):
                 sweep.append(op + inner)                      # end-truncated
             mixed = "|".join(bodies[(i + nb) % len(bodies)] for i in range(nb))
             sweep += [op + mixed + cl, "2(" + op + mixed + cl + ")", op + mixed]
+    # (g) every code-page character (the newline among them) as the payload of each one-/two-character literal kind, in several positions
+    lits = []
+    for c in g["codepage"]:
+        for lit_ in ("\\" + c, "‛" + c + "a", "‛a" + c, "‛" + c + c, "k" + c if c not in "\n" else "\\" + c + "1", "⁺" + c):
+            lits += [lit_, "λ" + lit_ + ";", "[1|" + lit_ + "]", "⟨" + lit_ + "|2⟩", "v" + lit_, "3(" + lit_ + ")"]
+    progs += lits
+    ctx.bump("(g) every code-page character in character / two-character / code-page-number literals x position", len(lits))
     progs += sweep
     ctx.bump("(f) branch-count sweep (1..9 branches x structure x body x context)", len(sweep))
     progs = list(dict.fromkeys(progs))
